@@ -595,6 +595,22 @@ pub fn one_child(api: &dyn GlobalApi, args: &[String]) -> i32 {
     }
 }
 
+/// `probe c17-corpus <dir> <n>`: seed corpus for the libFuzzer target (postcard-encoded sequences).
+pub fn write_corpus(api: &dyn GlobalApi, dir: &str, n: usize) -> i32 {
+    let ctx = Ctx::new(api, "C17", Tier::Quick, 0, vec![]);
+    let _ = std::fs::create_dir_all(dir);
+    for (i, mut s) in ctx.sample_values("corpus", n, &sequence_strategy()).into_iter().enumerate() {
+        s.ops.truncate(8);
+        sanitize(&mut s);
+        if let Ok(b) = postcard::to_allocvec(&s) {
+            if b.len() <= 2000 {
+                let _ = std::fs::write(format!("{}/seq-{:02}", dir, i), b);
+            }
+        }
+    }
+    0
+}
+
 // ---------------------------------------------------------------- parent side
 
 #[cfg(unix)]
